@@ -78,6 +78,18 @@ impl PartialEq<Vec<usize>> for Tabs {
     }
 }
 
+#[cfg(avt_verif)]
+impl Tabs {
+    // verification hook
+    pub(crate) fn verif_state(&self, out: &mut String) {
+        out.push_str(&format!("{} ", self.0.len()));
+
+        for t in &self.0 {
+            out.push_str(&format!("{} ", t));
+        }
+    }
+}
+
 #[cfg(test)]
 mod tests {
     use super::Tabs;
